@@ -27,7 +27,7 @@ TAG = "C16_%d" % os.getpid()    # scratch-file prefix in coq/build, unique per p
 THEOREMS = ["C16_refines", "C16_no_lost_update", "C16_fresh_commit_visible", "C16_safe_delete",
             "C16_safe_delete_gone", "C16_lookup_live", "C16_lookup_missing", "C16_membership", "C16_len", "C16_fault_total",
             "C16_unquote_quote", "C16_quote_inj", "C16_unquote_transform", "C16_transform_inj",
-            "C16_doc_url_inj", "C16_key_agreement", "C16_routing", "C16_reserved_id_refuted", "C16_example"]
+            "C16_doc_url_inj", "C16_key_agreement", "C16_routing", "C16_reserved_id_refuted", "C16_second_replica_refuted", "C16_example"]
 
 ID_POOL = ["a", "http://x/a b?c#d%e", "é/ü", "x/y z", "p%2Fq", "a+b&c=d", ".", "..", "~t_-", "€", "%", "a\tb",
            "urn:x:y#frag?q=1", "A.b", "?#"]
@@ -111,6 +111,10 @@ def run_sdk(case):
     tok = {id(o): t for t, o in enumerate(objs)}
     ids = [p[0] for p in pool]
     ref = {}                                                     # the oracle's map: id -> payload on the server
+    synced = {}      # object token -> generation of its document when THIS object was last synchronised with the
+    #                  server (successful add / lookup returning it / update() / commit / iteration returning it)
+    writer = {}      # id -> who wrote the document's current generation: "ext" (second actor) | "client"
+    attached = {}    # object token -> it is a replica of a stored document (added / fetched, not discarded since)
     documented = (KeyError, couchdb.CouchDBConnectionError, couchdb.CouchDBResponseError,
                   couchdb.CouchDBServerError, couchdb.CouchDBConflictError)
     fails = []
@@ -150,6 +154,13 @@ def run_sdk(case):
             return [6, 6]
         return [6, 99]
 
+    def stale_replica(x, pre):
+        return writer.get(x.id) == "ext" and synced.get(tok[id(x)]) != pre["server_gen"]
+
+    def multi(x):
+        """several local objects are attached to the same document: the SDK keeps one revision per URL"""
+        return "-multi-replica" if sum(1 for o in objs if o.id == x.id and o.source != "") > 1 else ""
+
     def state_rows(snap):
         rows = []
         for i in ids:
@@ -181,10 +192,12 @@ def run_sdk(case):
                     st2, _ = E.raw("PUT", docpath(op[1]), json.dumps(body, cls=json_serialization.AASToJsonEncoder))
                     assert st2 == 201, st2
                     ref[op[1]] = op[2]
+                    writer[op[1]] = "ext"
                 elif rev:
                     st2, _ = E.raw("DELETE", docpath(op[1]) + "?rev=" + rev)
                     assert st2 == 200, st2
                     ref.pop(op[1], None)
+                    writer[op[1]] = "ext"
                 out = [0]
             else:
                 if kind in ("add", "modify", "commit", "update", "discard", "cobj"):
@@ -197,6 +210,8 @@ def run_sdk(case):
                     d = snap0.get(x.id)
                     pre["server_live"] = bool(d and not d[1])
                     pre["server_gen"] = d[0] if d else 0
+                revs0 = {i: couchdb.get_couchdb_revision(url_of(i)) for i in set(ids)}
+                objs0 = [(o.source, val_of(o)) for o in objs]
                 fake.arm({fault[0]: tuple(fault[1])} if fault else None)
                 try:
                     if kind == "add":
@@ -287,7 +302,17 @@ def run_sdk(case):
                     else:
                         fresh = (pre["server_live"] and pre["client_rev"] is not None
                                  and gen_of(pre["client_rev"]) == pre["server_gen"])
-                        if fresh:
+                        if fresh and stale_replica(x, pre):
+                            # the client's recorded revision is current, but THIS replica has not seen the second
+                            # actor's last write: accepting the commit loses that write
+                            if exc is None:
+                                ref[x.id] = pre["val"]
+                                bad(k, kind, "stale-replica-accepted" + multi(x),
+                                    "a commit from a replica that was last synchronised before the second actor's "
+                                    "write was accepted and overwrote that write (lost update)")
+                            else:
+                                expect(couchdb.CouchDBConflictError, "the replica has not seen the server's current revision")
+                        elif fresh:
                             expect(None, "the replica's revision is the server's current one")
                             if exc is None:
                                 ref[x.id] = pre["val"]
@@ -316,6 +341,14 @@ def run_sdk(case):
                         expect(couchdb.CouchDBConflictError, "safe delete without a known revision")
                     elif not pre["server_live"]:
                         expect((couchdb.CouchDBConflictError, KeyError), "safe delete of a document that is already gone")
+                    elif gen_of(pre["client_rev"]) == pre["server_gen"] and stale_replica(x, pre):
+                        if exc is None:
+                            del ref[x.id]
+                            bad(k, kind, "stale-replica-accepted" + multi(x),
+                                "a safe delete from a replica that was last synchronised before the second actor's "
+                                "write was accepted and removed that write (lost update)")
+                        else:
+                            expect(couchdb.CouchDBConflictError, "the replica has not seen the server's current revision")
                     elif gen_of(pre["client_rev"]) == pre["server_gen"]:
                         expect(None, "the replica's revision is the server's current one")
                         if exc is None:
@@ -348,6 +381,50 @@ def run_sdk(case):
                 if o.source != "" and d and not d[1] and (r is None or gen_of(r) != d[0]):
                     bad(k, kind, "recorded-revision-stale", f"after a successful {kind} the recorded revision is not "
                         "the server's current one (the next commit would be refused)")
+            # ---- bookkeeping: which replica is synchronised with which generation; who wrote last
+            revs1 = {i: couchdb.get_couchdb_revision(url_of(i)) for i in set(ids)}
+
+            def gen_now(ident):
+                d = snap1.get(ident)
+                return d[0] if d else 0
+            if exc is None and not hit:
+                if kind in ("add", "update", "commit") and x.source != "":
+                    synced[tok[id(x)]] = gen_now(x.id)
+                if kind == "get":
+                    synced[tok[id(result)]] = gen_now(result.id)
+                    attached[tok[id(result)]] = True
+                if kind == "iter":
+                    for o in result:
+                        synced[tok[id(o)]] = gen_now(o.id)
+                        attached[tok[id(o)]] = True
+                if kind in ("add", "commit", "discard") and snap1 != snap0:
+                    writer[x.id] = "client"
+                if kind == "add":
+                    attached[tok[id(x)]] = True
+                if kind == "discard":
+                    attached[tok[id(x)]] = False
+            elif kind == "iter":
+                # a failed iteration has refreshed the cached replicas of the rows fetched so far
+                for i in revs1:
+                    if revs1[i] != revs0[i] and revs1[i]:
+                        for o in objs:
+                            if o.id == i and o.source != "":
+                                synced[tok[id(o)]] = gen_of(revs1[i])
+            # ---- a failed call leaves the client's view alone: sources, payloads, recorded revisions
+            if exc is not None:
+                now = [(o.source, val_of(o)) for o in objs[:len(objs0)]]
+                if [a[0] for a in now] != [a[0] for a in objs0]:
+                    bad(k, kind, "failed-call-changed-source", f"{kind} raised {type(exc).__name__} but changed the "
+                        "`source` of an object (a later commit()/update() of it silently does nothing)")
+                if kind != "iter" and (now != objs0 or revs1 != revs0):
+                    bad(k, kind, "failed-call-changed-client", f"{kind} raised {type(exc).__name__} but changed the "
+                        "client's view (object payload or recorded revision)")
+            # ---- an object stays attached to its document until it is successfully discarded
+            for t, a in attached.items():
+                if (objs[t].source != "") != a:
+                    bad(k, kind, "attachment-lost" if a else "attachment-left",
+                        "an object that was added/fetched and not discarded has lost its source (its commit() would "
+                        "silently do nothing)" if a else "a discarded object still has a source")
         live = {i: int(d[2]["data"]["idShort"][1:]) for i, d in snap1.items() if not d[1]}
         if live != ref:
             bad(k, kind, "server-differs-from-map", "the server's documents differ from the reference map "
@@ -421,6 +498,46 @@ def gen_case(rng, maxlen):
         if kind in REQ_COUNT and rng.random() < pfault:
             fault = [rng.randrange(REQ_COUNT[kind]) if rng.random() < .6 else 0, list(rng.choice(FAULTS))]
         ops.append([op, fault])
+    return {"pool": pool, "ops": ops}
+
+
+def gen_scenario(rng):
+    """scripted histories around the two ways of losing a write: (1) calls that do not synchronise a replica
+    (in, len, iteration of other documents) between the second actor's write and a commit / safe delete;
+    (2) carrying on with an object after a failed discard"""
+    idpool = rng.sample(ID_POOL, 2)
+    a, b = idpool
+    pool = [[a, 1], [a, 2], [b, 3]]
+    ops = [[["add", 0], None]]
+    if rng.random() < .5:
+        ops.append([["add", 2], None])
+    if rng.random() < .4:
+        ops.append([["get", a], None])
+    v = 20
+    if rng.random() < .5:
+        # (1)
+        ops.append([["extput", a, v], None])
+        for _ in range(rng.randint(1, 4)):
+            ops.append([rng.choice([["cid", a], ["cobj", 0], ["len"], ["cid", b], ["cobj", 1], ["get", b], ["update", 2]]), None])
+        ops.append([["modify", 0, v + 1], None])
+        ops.append([rng.choice([["commit", 0], ["discard", 0, 1]]), None])
+        ops += [[["get", a], None], [["len"], None]]
+        if rng.random() < .5:
+            ops += [[["update", 0], None], [["modify", 0, v + 2], None], [["commit", 0], None], [["get", a], None]]
+    else:
+        # (2)
+        how = rng.randrange(3)
+        if how == 0:
+            ops += [[["extput", a, v], None], [["discard", 0, 1], None]]                 # stale safe delete: 409
+        elif how == 1:
+            ops.append([["discard", 0, 1], [0, list(rng.choice(FAULTS))]])             # safe delete, DELETE faulted
+        else:
+            ops.append([["discard", 0, 0], [rng.randrange(2), list(rng.choice(FAULTS))]])  # HEAD or DELETE faulted
+        ops += [[["modify", 0, v + 1], None], [["commit", 0], None], [["update", 0], None],
+                [["modify", 0, v + 2], None], [["commit", 0], None], [["get", a], None], [["cobj", 0], None]]
+    for _ in range(rng.randint(0, 3)):
+        ops.append([rng.choice([["len"], ["iter"], ["get", a], ["commit", 0], ["discard", 0, rng.randrange(2)],
+                                ["add", 1], ["extdel", a]]), None])
     return {"pool": pool, "ops": ops}
 
 
@@ -569,8 +686,10 @@ def run(chk):
     fm = fault_matrix()
     cases += fm
     chk.cov["fault_matrix"] = f"{len(fm)} directed cases: 10 operations x request position x 7 faults"
-    for _ in range(nseq):
-        cases.append(gen_case(rng, maxlen))
+    for j in range(nseq):
+        cases.append(gen_scenario(rng) if j % 4 == 3 else gen_case(rng, maxlen))
+    chk.cov["scripted_scenarios"] = (f"{nseq // 4} histories: non-synchronising calls between the second actor's write "
+                                     "and a commit / safe delete; carrying on with an object after a failed discard")
     try:
         terms = []
         reported = set()
